@@ -136,10 +136,10 @@ struct Model {
 		if(nx != live.end() && nx->first < p + s) { flag("C01", "overlap", strf("%s(%zu) returned [%p,+%zu) which overlaps the live block [%p,+%zu)", opname, req, (void *)p, s, (void *)nx->first, nx->second.size)); return false; }
 		if(nx != live.begin()) { auto pv = std::prev(nx); if(pv->first + pv->second.size > p) { flag("C01", "overlap", strf("%s(%zu) returned [%p,+%zu) which overlaps the live block [%p,+%zu)", opname, req, (void *)p, s, (void *)pv->first, pv->second.size)); return false; } }
 		// overlap with the pool's frame header
-		uintptr_t al = Policy::aligned ? m->base : ((m->base + Policy::sb_size - 1) & ~(uintptr_t)(Policy::sb_size - 1));
+		uintptr_t al = Policy::aligned ? m->base : ((m->base + Policy::m_sb_size - 1) & ~(uintptr_t)(Policy::m_sb_size - 1));
 		uintptr_t hlo = m->hdr_hi ? m->hdr_lo : al, hhi = m->hdr_hi ? m->hdr_hi : al + 8;
 		if(p < hhi && hlo < p + s) { flag("C01", "overlaps-bookkeeping", strf("%s(%zu) returned [%p,+%zu) which overlaps the allocator's frame header [%p,%p)", opname, req, (void *)p, s, (void *)hlo, (void *)hhi)); return false; }
-		size_t al_need = std::min(pow2ceil(std::max<size_t>(need, 8)), (size_t)Policy::pagesize);
+		size_t al_need = std::min(pow2ceil(std::max<size_t>(need, 8)), (size_t)Policy::m_pagesize);
 		if(p % al_need) { flag("C01", "misaligned", strf("%s(%zu) returned %p, not aligned to %zu", opname, req, (void *)p, al_need)); return false; }
 		(void)fresh_expected;
 		return true;
@@ -226,7 +226,7 @@ struct Model {
 		return p;
 	}
 	static constexpr size_t frg_max_bucket() { // documented class arithmetic: 8,16,32,64 then doubling; the largest class is 64 << (NB-4)
-		return Policy::num_buckets <= 4 ? (size_t)8 << (Policy::num_buckets - 1) : (size_t)64 << (Policy::num_buckets - 4);
+		return Policy::m_num_buckets <= 4 ? (size_t)8 << (Policy::m_num_buckets - 1) : (size_t)64 << (Policy::m_num_buckets - 4);
 	}
 
 	void held_check(const char *opn) {
@@ -382,18 +382,18 @@ struct Model {
 // ------------------------------------------------------------------ size generator
 template<typename Policy>
 static size_t boundary_size(Rng &r) {
-	size_t maxb = Policy::num_buckets <= 4 ? (size_t)8 << (Policy::num_buckets - 1) : (size_t)64 << (Policy::num_buckets - 4);
+	size_t maxb = Policy::m_num_buckets <= 4 ? (size_t)8 << (Policy::m_num_buckets - 1) : (size_t)64 << (Policy::m_num_buckets - 4);
 	switch(r.below(12)) {
 	case 0: return r.below(3);                                   // 0,1,2
-	case 1: { size_t c = (size_t)8 << r.below(Policy::num_buckets); return c > maxb ? maxb : c; }
-	case 2: { size_t c = (size_t)8 << r.below(Policy::num_buckets); if(c > maxb) c = maxb; return c + 1; }
-	case 3: { size_t c = (size_t)8 << r.below(Policy::num_buckets); if(c > maxb) c = maxb; return c - 1; }
+	case 1: { size_t c = (size_t)8 << r.below(Policy::m_num_buckets); return c > maxb ? maxb : c; }
+	case 2: { size_t c = (size_t)8 << r.below(Policy::m_num_buckets); if(c > maxb) c = maxb; return c + 1; }
+	case 3: { size_t c = (size_t)8 << r.below(Policy::m_num_buckets); if(c > maxb) c = maxb; return c - 1; }
 	case 4: return maxb + (long)r.below(3) - 1;                   // small/large threshold
-	case 5: return Policy::pagesize * (1 + r.below(4)) + (long)r.below(3) - 1; // page-rounding boundaries
-	case 6: { long v = (long)(Policy::sb_size * (1 + r.below(3))) + (long)r.below(3) - 1 - (r.chance(1, 2) ? (long)Policy::pagesize : 0); return v < 1 ? 1 : (size_t)v; } // around/above superblock multiples
+	case 5: return Policy::m_pagesize * (1 + r.below(4)) + (long)r.below(3) - 1; // page-rounding boundaries
+	case 6: { long v = (long)(Policy::m_sb_size * (1 + r.below(3))) + (long)r.below(3) - 1 - (r.chance(1, 2) ? (long)Policy::m_pagesize : 0); return v < 1 ? 1 : (size_t)v; } // around/above superblock multiples
 	case 7: return 1 + r.below(64);
 	case 8: return 1 + r.below(maxb);
-	case 9: return maxb + 1 + r.below(4 * Policy::pagesize);
+	case 9: return maxb + 1 + r.below(4 * Policy::m_pagesize);
 	default: return 1 + r.below(512);
 	}
 }
@@ -404,15 +404,15 @@ static void calibrate(Model<Policy, Mutex> &m) {
 	static std::map<size_t, size_t> cache;
 	if(cache.empty()) {
 		Model<Policy, Mutex> scratch;
-		for(int b = 0; b < Policy::num_buckets; b++) {
+		for(int b = 0; b < Policy::m_num_buckets; b++) {
 			size_t cls = b < 4 ? (size_t)8 << b : (size_t)64 << (b - 3);
 			uint64_t maps0 = scratch.st.n_map; size_t n = 0;
 			while(scratch.st.n_map < maps0 + 2 && n < 1200000) { void *p = scratch.api_allocate(cls); if(!p) break; n++; }
 			cache[cls] = n - 1;
 			// the measured capacity is only a calibration of the model if the slab really is used up to (almost) its end:
 			// whatever the bookkeeping at the front of a slab needs, it is far less than 512 bytes plus one block
-			size_t least = (Policy::slabsize - 512) / cls; if(least) least--;
-			if(n - 1 < least) flag("C02", "slab-capacity", strf("a fresh %zu-byte slab gave out only %zu blocks of the %zu-byte class before the pool mapped another one (room for at least %zu)", (size_t)Policy::slabsize, n - 1, cls, least));
+			size_t least = (Policy::m_slabsize - 512) / cls; if(least) least--;
+			if(n - 1 < least) flag("C02", "slab-capacity", strf("a fresh %zu-byte slab gave out only %zu blocks of the %zu-byte class before the pool mapped another one (room for at least %zu)", (size_t)Policy::m_slabsize, n - 1, cls, least));
 		}
 	}
 	m.per_slab = cache;
@@ -433,7 +433,7 @@ static uint64_t history(const char *mode, long long idx, uint64_t cs, unsigned n
 	bool ok = guarded(g_prop.c_str(), [&] {
 		int phase = 0; size_t focus = 8;
 		for(unsigned i = 0; i < nops && !g_case_bad; i++) {
-			if(i % 80 == 0) { phase = r.below(heavy_fill ? 6 : 5); if(heavy_fill && i < 400) phase = 5; focus = (size_t)8 << r.below(Policy::num_buckets); if(focus > Model<Policy, Mutex>::frg_max_bucket()) focus = Model<Policy, Mutex>::frg_max_bucket(); }
+			if(i % 80 == 0) { phase = r.below(heavy_fill ? 6 : 5); if(heavy_fill && i < 400) phase = 5; focus = (size_t)8 << r.below(Policy::m_num_buckets); if(focus > Model<Policy, Mutex>::frg_max_bucket()) focus = Model<Policy, Mutex>::frg_max_bucket(); }
 			int k = r.below(100);
 			bool want_alloc = phase == 0 ? k < 75 : phase == 1 ? k < 25 : phase == 5 ? k < 90 : k < 50;
 			if(m.live.empty()) want_alloc = true;
@@ -484,6 +484,11 @@ template<bool AL, bool PO> using CfgBigSb = ShadowPolicy<0x1000, 1 << 18, 1 << 1
 template<bool AL, bool PO> using CfgTiny = ShadowPolicy<0x1000, 0x1000, 0x1000, 5, AL, PO>;
 template<bool AL, bool PO> using CfgOdd = ShadowPolicy<0x1000, 0x3000, 0x4000, 8, AL, PO>;      // slab size not a power of two (only a page multiple <= superblock size is required)
 template<bool AL, bool PO> using CfgHugePage = ShadowPolicy<0x1000, 1 << 21, 1 << 21, 13, AL, PO>; // one 2 MiB huge page per slab: 262000 blocks in a slab of the smallest class
+// policies that leave geometry constants to the pool's defaults: a slab size alone (192 KiB under the default 256 KiB superblock),
+// nothing at all, and everything but the superblock size
+template<bool AL, bool PO> using CfgOmitSb = ShadowPolicy<0x1000, 0x30000, 1 << 18, 13, AL, PO, 1 | 4 | 8>;
+template<bool AL, bool PO> using CfgOmitAll = ShadowPolicy<0x1000, 1 << 18, 1 << 18, 13, AL, PO, 1 | 2 | 4 | 8>;
+template<bool AL, bool PO> using CfgOmitSlab = ShadowPolicy<0x1000, 1 << 18, 1 << 18, 8, AL, PO, 2>;
 template<bool AL, bool PO> using CfgOddBig = ShadowPolicy<0x1000, 0x30000, 0x40000, 13, AL, PO>;
 
 // a policy that also offers the optional allocation-trace hooks (enable_trace / output_trace / walk_stack): the pool then compiles
@@ -721,6 +726,10 @@ int main(int argc, char **argv) {
 		run_cfg<CfgOddBig<true, true>, SM>("odd-slab-192K/aligned/poison", n / 2 + 1, ops);
 		run_cfg<TracePolicy<CfgSmall<false, true>>, SM>("small/unaligned/poison/trace-hooks", n, ops);
 		run_cfg<CfgHugePage<true, false>, SM>("hugepage-2M/aligned/plain", n / 3 + 1, ops);
+		run_cfg<CfgOmitSb<false, true>, SM>("slabsize-192K-only/unaligned/poison", n / 2 + 1, ops);
+		run_cfg<CfgOmitSb<true, false>, SM>("slabsize-192K-only/aligned/plain", n / 2 + 1, ops);
+		run_cfg<CfgOmitAll<false, true>, SM>("no-constants/unaligned/poison", n / 2 + 1, ops);
+		run_cfg<CfgOmitSlab<true, true>, SM>("no-slabsize/aligned/poison", n / 2 + 1, ops);
 		dense_slabs<CfgHugePage<true, false>, SM>("hugepage-2M/aligned/plain", t ? 3 : 1); // per shard
 		run_cfg<CfgTiny<false, true>, SM>("tiny/unaligned/poison", n * 3, ops);
 		run_cfg<CfgTiny<true, false>, SM>("tiny/aligned/plain", n * 3, ops);
